@@ -123,15 +123,19 @@ InsertEnd(l, e) == LET RECURSIVE I(_) I(r) == IF r = <<>> THEN <<e>> ELSE IF Hea
 RECURSIVE SortEnds(_, _)
 SortEnds(brks, acc) == IF brks = <<>> THEN acc ELSE SortEnds(Tail(brks), InsertEnd(acc, Head(brks)[2]))
 BreakEnds(brks) == IF SortedBreakEnds THEN SortEnds(brks, <<>>) ELSE [j \in 1..Len(brks) |-> brks[j][2]]
-RECURSIVE SweepEnds(_, _, _, _)
-SweepEnds(objs, ends, cur, acc) ==
+\* holdsCarry = TRUE is the statement ("the first object after each break starts a new combo" - whatever its kind);
+\* FALSE is the code: a hold note has no combo flag to set, yet it uses the break up, so that neither it nor the
+\* object after it starts a combo (known finding, C15).
+RECURSIVE SweepEndsX(_, _, _, _, _)
+SweepEndsX(objs, ends, cur, acc, holdsCarry) ==
     IF objs = <<>> THEN acc ELSE
     LET h == Head(objs)
         RECURSIVE Adv(_)
         Adv(c) == IF c <= Len(ends) /\ ends[c] < h.t THEN Adv(c + 1) ELSE c
         c2 == Adv(cur)
         force == c2 > cur
-    IN SweepEnds(Tail(objs), ends, c2, Append(acc, IF h.k = "hold" THEN h ELSE [h EXCEPT !.nc = @ \/ force]))
+    IN SweepEndsX(Tail(objs), ends, c2, Append(acc, IF h.k = "hold" /\ ~holdsCarry THEN h ELSE [h EXCEPT !.nc = @ \/ force]), holdsCarry)
+SweepEnds(objs, ends, cur, acc) == SweepEndsX(objs, ends, cur, acc, FALSE)
 Sweep(objs, brks, cur, acc) == SweepEnds(objs, BreakEnds(brks), cur, acc)
 
 \* the samples of an object as PARSED (SampleBankInfo::convert_sound_type): the normal sample (or
@@ -190,10 +194,13 @@ ParsedNc(objs) ==
                                ELSE IF objs[j].k = "spinner" THEN @ ELSE FALSE]]
 
 \* the processing for given control points (SectionFlow.tla supplies its own)
-PostWith(objs, breaks, sm, mode, cp) ==
-    LET s1 == Sweep(SortStable(ParsedNc(objs), <<>>), breaks, 1, <<>>)
+PostWithX(objs, breaks, sm, mode, cp, holdsCarry) ==
+    LET s1 == SweepEndsX(SortStable(ParsedNc(objs), <<>>), BreakEnds(breaks), 1, <<>>, holdsCarry)
     IN [j \in 1..Len(s1) |-> PostOne(s1[j], cp, sm, mode)]
-Post(i) == PostWith(i.objs, i.breaks, i.sm, i.mode, CpOf(i))
+\* (SectionFlow.tla, which is about the dependence between sections, keeps the code's reading)
+PostWith(objs, breaks, sm, mode, cp) == PostWithX(objs, breaks, sm, mode, cp, FALSE)
+Post(i) == PostWithX(i.objs, i.breaks, i.sm, i.mode, CpOf(i), TRUE)
+PostW(i) == PostWithX(i.objs, i.breaks, i.sm, i.mode, CpOf(i), FALSE)
 
 \* ---- shifting every time of the input by k milliseconds -----------------------------
 ShiftIn(i, k) ==
@@ -207,7 +214,7 @@ Init_ == /\ inp \in [timing : TimingChoices, objs : ObjChoices, breaks : BreakCh
          \* the variables of the extended TimingLines module are not used here
          /\ gen = Gen0("osu") /\ hist = <<>> /\ st = EmptySt /\ done = FALSE
 Compute == /\ ~pdone /\ pdone' = TRUE /\ out' = Post(inp) /\ UNCHANGED <<inp, vars>>
-           /\ (EmitPost => PrintT("CASE " \o ToJson([inp |-> inp, out |-> out'])))
+           /\ (EmitPost => PrintT("CASE " \o ToJson([inp |-> inp, out |-> out', outw |-> PostW(inp)])))
 ASSUME EmitPost => PrintT("ALPHA " \o ToJson(TimingSeq))
 
 PSpec == Init_ /\ [][Compute]_<<pvars, vars>>
@@ -219,12 +226,11 @@ SortedStable == pdone =>
     /\ \A j \in 1..(Len(out) - 1) : out[j].t = out[j + 1].t => out[j].id < out[j + 1].id
     /\ Len(out) = Len(inp.objs)
 
-\* the first object after each break that ends before it starts a new combo (holds have no combo)
+\* the first object after each break that ends before it starts a new combo - of whatever kind
 ComboAfterBreak == pdone =>
     \A b \in 1..Len(inp.breaks) : \A j \in 1..Len(out) :
         (/\ inp.breaks[b][2] < out[j].t
-         /\ \A m \in 1..(j - 1) : ~(inp.breaks[b][2] < out[m].t)
-         /\ out[j].k # "hold") => out[j].nc
+         /\ \A m \in 1..(j - 1) : ~(inp.breaks[b][2] < out[m].t)) => out[j].nc
 
 \* closed forms (velocity in thousandths, durations in ms) restated from the statement
 ClosedForms == pdone =>
